@@ -62,7 +62,8 @@ def check(rep, tier, seed):
         jobs.append((["view", "--mask-monomorphic"], txt, "grid"))
         jobs.append((["view", "--normalize"], txt, "grid"))
         jobs.append((["view", "-O", "npy"], txt, "grid"))
-        for m in (["0"], [str(d - 1)], [str(d)], ["0", "0"], [str(i) for i in range(d)], ["7"]):
+        dup = [[str(a), str(b), str(a)] for a in range(min(d, 4)) for b in range(min(d, 4)) if a != b] if d >= 3 else []   # an axis named twice, not adjacently
+        for m in [["0"], [str(d - 1)], [str(d)], ["0", "0"], [str(i) for i in range(d)], ["7"]] + dup:
             jobs.append((["view", "-m", ",".join(m)], txt, "grid"))
             jobs.append((["view", "-M", ",".join(m)], txt, "grid"))
         for to in ([0] * d, sh, [n + 1 for n in sh], [1] * d, [1] * (d + 1), [2**63] * d, [2**64 - 1] * d):
